@@ -118,6 +118,23 @@ def _plain(x, depth=0):
 _SHARDS_RUN_BY_THIS_PROCESS = []
 
 
+def _library_raised(exc):
+    """'<Type>: <message> (raised at <file>:<line>)' when the innermost frame of the traceback lies in the library under
+    verification, else None"""
+    tb = exc.__traceback__
+    last = None
+    while tb is not None:
+        last = tb
+        tb = tb.tb_next
+    if last is None:
+        return None
+    fn = os.path.abspath(last.tb_frame.f_code.co_filename)
+    root = os.path.join(bootstrap.repo_path(), "inscripta") + os.sep
+    if not fn.startswith(root):
+        return None
+    return f"{type(exc).__name__}: {str(exc)[:160]} (raised at {os.path.relpath(fn, bootstrap.repo_path())}:{last.tb_lineno})"
+
+
 def _worker(args):
     modname, shard = args
     import importlib
@@ -135,8 +152,19 @@ def _worker(args):
         with warnings.catch_warnings():
             warnings.simplefilter("ignore")
             res = mod.run_shard(shard)
-    except Exception:  # harness error: never a VIOLATION
-        return {"error": traceback.format_exc(), "shard": shard}
+    except Exception as exc:
+        lib_exc = _library_raised(exc)
+        if lib_exc is None:  # harness error: never a VIOLATION
+            return {"error": traceback.format_exc(), "shard": shard}
+        # the exception was RAISED INSIDE THE LIBRARY and escaped a harness call that is not wrapped because on the unchanged
+        # tree it always returns: the library now refuses (or crashes on) an input it used to answer - a deviation, whose
+        # replay artefact is the shard
+        d = {"op": "uncaught-library-exception", "case": {"crashed_shard": shard}, "observed": lib_exc,
+             "expected": "a value (this call returns on the unchanged tree)", "sig": "library-raised:" + type(exc).__name__,
+             "_shard": shard, "_prev_shards": list(_SHARDS_RUN_BY_THIS_PROCESS)}
+        _SHARDS_RUN_BY_THIS_PROCESS.append(shard)
+        return {"states": set(), "transitions": 0, "nontrivial": set(), "deviations": [d], "n_deviations": 1, "outcomes": collections.Counter(),
+                "samples": [], "extra": collections.Counter(), "known_hits": collections.Counter(), "wall": time.time() - t0, "shard": shard}
     for d in res.deviations:
         d["_shard"] = shard  # lets a history-dependent deviation be reproduced by re-running its shard
         d["_prev_shards"] = list(_SHARDS_RUN_BY_THIS_PROCESS)  # ... or the shards its worker ran before it
@@ -367,6 +395,23 @@ def do_replay(mod, path, quiet=False):
     with open(path) as fh:
         rec = json.load(fh)
     d = rec["deviation"]
+    if d.get("op") == "uncaught-library-exception":
+        bootstrap.clear_global_caches()
+        try:
+            with warnings.catch_warnings():
+                warnings.simplefilter("ignore")
+                mod.run_shard(d["_shard"])
+            got = None
+        except Exception as exc:  # noqa
+            got = _library_raised(exc)
+        if got is not None and got.split(":")[0] == d["observed"].split(":")[0]:
+            if not quiet:
+                print(f"  reproduced op={d['op']} sig={d['sig']} observed={got!r}")
+                print(f"VIOLATION property={mod.PROPERTY} replay={path}")
+            return 1
+        if not quiet:
+            print(f"{mod.PROPERTY}: replay {path} did not deviate on this tree")
+        return 0
     with warnings.catch_warnings():
         warnings.simplefilter("ignore")
         devs = mod.replay(d["case"]) or []
